@@ -34,7 +34,7 @@ pub fn env_of(b: &mut Built) -> Env {
     Env { main_stack, text, lib, auxv: (a.1, a.0, a.2, a.3) } // (phnum, phdr, gate, entry)
 }
 
-pub const DIMS: [usize; 7] = [4, 3, 2, 3, 3, 2, 3];
+pub const DIMS: [usize; 7] = [4, 3, 2, 3, 4, 2, 3];
 pub const DIM_NAMES: [&str; 7] = ["crash", "limit", "sanitize", "skip", "app", "usermap", "auxv"];
 
 pub fn opts_for(idx: &[usize], b: &Built, env: &Env) -> DumpOpts {
@@ -74,6 +74,11 @@ pub fn opts_for(idx: &[usize], b: &Built, env: &Env) -> DumpOpts {
         o.app_memory.push((b.pattern_addrs[0] as usize + 3, 4096 + 100));
         if idx[4] == 2 {
             o.app_memory.push((b.pattern_addrs[0] as usize + 2 * 4096, 17));
+        }
+        if idx[4] == 3 {
+            // a region whose head is readable and whose tail runs into the unmapped page after the
+            // pattern region: the vectored read returns fewer bytes than requested
+            o.app_memory.push((b.pattern_addrs[0] as usize + 4 * 4096 - 64, 4360));
         }
     }
     if idx[5] == 1 {
@@ -174,7 +179,7 @@ fn run_shape(shape: &Shape, tuples: &[Vec<usize>]) -> Vec<Res> {
 }
 
 pub fn run(ctx: &Ctx, rep: &mut Report) {
-    rep.rule = "target shapes (N in {1,2,3,5,20,21,22,64}(quick) / 1..64 selection (thorough) x 4 named/unnamed mixes x {0,8} descriptors, each with a pattern region, a dlopen'ed ELF with build id and a mapped non-ELF file) x option tuples over 7 dimensions (crash 4, limit 3, sanitize 2, skip 3, app memory 3, user mapping 2, direct auxv 3): full product (1296) at N=3, all tuples with <=2 deviations elsewhere; nontrivial = successful dumps of shapes with both named and unnamed threads or with >=2 option deviations".into();
+    rep.rule = "target shapes (N in {1,2,3,5,20,21,22,64}(quick) / 1..64 selection (thorough) x 4 named/unnamed mixes x {0,8} descriptors, each with a pattern region, a dlopen'ed ELF with build id and a mapped non-ELF file) x option tuples over 7 dimensions (crash 4, limit 3, sanitize 2, skip 3, app memory 4 (none, one, two, one partially unreadable), user mapping 2, direct auxv 3): full product (1728) at N=3, all tuples with <=2 deviations elsewhere; nontrivial = successful dumps of shapes with both named and unnamed threads or with >=2 option deviations".into();
     if let Some(case) = &ctx.replay {
         let Some(shape) = case.get("shape").and_then(Shape::from_json) else {
             rep.machinery("bad replay shape".into());
